@@ -1,4 +1,5 @@
 import TonicModel.Lemmas.CallEnd
+import TonicModel.Lemmas.CallKnobs
 /-
 C02 — Client observes exactly the messages, metadata and status the server produced; the
 handler receives exactly the request the caller sent; under any transport fragmentation.
@@ -467,5 +468,73 @@ theorem C02_missing_request_message [BEq α] [LawfulBEq α] (c : Cfg α) (laws :
   obtain ⟨st', hcr, hsame⟩ := createResponse_trailersOnly d missingRequest (by decide) (by decide)
     (by unfold noEncodingName; decide) htr.2.1
   exact ⟨st', by cases cs <;> simp [clientReceive, clientStream, clientSingle, hcr], hsame⟩
+
+/-! ## configuration that must not show
+
+The correspondence run drives the real pair with message-size limits set to exactly the largest
+message of each direction (`+lim` cases), with the server configured as generated code does it,
+with a cloned / re-used client, other constructors, pass-through middleware and hinting bodies
+(harness/src/c02.rs, "flags"): the prediction for all of them is the model WITHOUT the knob.  For
+the sending-side limit that is a theorem about the model with the knob: -/
+
+private theorem fits_srcOf (cd : Framing.Codec α) (cfg : Framing.EncCfg) (hc : cfg.comp = none) (l : Nat) (s : Sched α)
+    (h : ∀ m ∈ s.msgs, (cd.ser m).length ≤ l) : Framing.Fits cd cfg l (srcOf s) := by
+  intro m hm
+  simp only [srcOf, List.mem_map] at hm
+  obtain ⟨x, hx, hxe⟩ := hm
+  cases x with
+  | none => cases hxe
+  | some m' =>
+    cases hxe
+    have : m ∈ s.msgs := by simp only [Sched.msgs, List.mem_filterMap, id]; exact ⟨some m, hx, rfl⟩
+    simpa [Framing.payload, hc] using h m this
+
+/-- **A client-side `max_encoding_message_size` that every request message fits — the boundary
+`length = limit` included — is invisible**: the HTTP request handed to the transport (headers and
+every poll of the body) is the one of a client without the limit, for every caller request, every
+yield threshold and any number of polls.  All C02 theorems therefore hold for such a client. -/
+theorem C02_client_encoding_limit_invisible (c : Cfg α) (l nc : Nat) (r : CallReq α)
+    (hfit : ∀ m ∈ r.msgs.msgs, (c.cd.ser m).length ≤ l) :
+    clientRequestLim c l nc r = clientRequest c nc r := by
+  unfold clientRequestLim clientRequest encCfgLim
+  rw [Framing.run_limit c.cd (encCfg c false) l nc Enc.init (srcOf r.msgs)
+    (fits_srcOf c.cd (encCfg c false) rfl l r.msgs hfit)]
+  rfl
+
+/-- **A server-side `max_encoding_message_size` that every response message of the script fits is
+invisible**: the HTTP response (status, headers, every poll of the body incl. the trailers) is the
+one of a server without the limit — for both response shapes, every script (early error, any
+messages and `Pending`s, any final status), every yield threshold and any number of polls. -/
+theorem C02_server_encoding_limit_invisible (c : Cfg α) (l ns : Nat) (s : Bool) (sc : Script α)
+    (hfit : ∀ m ∈ sc.body.msgs, (c.cd.ser m).length ≤ l) :
+    handlerResponseLim c l ns s sc = handlerResponse c ns s sc := by
+  unfold handlerResponseLim handlerResponse encCfgLim
+  have hf : Framing.Fits c.cd (encCfg c true) l (handlerSrc s sc) := by
+    cases s with
+    | true =>
+      intro m hm
+      simp only [handlerSrc, ↓reduceIte, List.mem_append] at hm
+      rcases hm with hm | hm
+      · exact fits_srcOf c.cd (encCfg c true) rfl l sc.body hfit m hm
+      · cases hfin : sc.final <;> simp [hfin] at hm
+    | false =>
+      intro m hm
+      simp only [handlerSrc, Bool.false_eq_true, ↓reduceIte, List.mem_map] at hm
+      obtain ⟨m', hm', he⟩ := hm
+      cases he
+      simpa [Framing.payload, encCfg] using hfit m (List.mem_of_mem_take hm')
+  cases sc.early with
+  | some st => rfl
+  | none =>
+    simp only
+    rw [Framing.run_limit c.cd (encCfg c true) l ns Enc.init (handlerSrc s sc) hf]
+    rfl
+
+/-- the hypotheses are satisfiable at the boundary: a limit equal to the longest message -/
+example : ∀ m ∈ exReq.msgs.msgs, (exCfg.cd.ser m).length ≤ 2 := by decide
+example : (clientRequestLim exCfg 2 5 exReq).body = (clientRequest exCfg 5 exReq).body := by decide
+
+/-- … and the limit is not vacuous in the model: one byte less and the request body fails -/
+example : (clientRequestLim exCfg 1 5 exReq).body ≠ (clientRequest exCfg 5 exReq).body := by decide
 
 end C02
